@@ -643,4 +643,137 @@ theorem runHistory_wf (hist : List (Env × Req)) (s : Sys) (w : WfSys s) : WfSys
   | nil => exact w
   | cons a rest ih => exact ih _ (processUpload_wf a.1 a.2 s w)
 
+theorem abort_resp (s : Sys) (r : Run) (e : Err) : (abortOutcome s r e).resp = .error e := rfl
+
+/-- after a failed request -/
+structure FailedPost (s : Sys) (o : Outcome) : Prop where
+  /-- the index is exactly what it was: every query and listing answers as before -/
+  records : o.sys.db.records = s.db.records
+  /-- nothing is queryable or listed under the id the failed upload was given -/
+  own : ∀ k, o.alloc = some k → k ∉ s.db.uploads ∧ o.sys.db.queryUpload k = [] ∧ ∀ c, (k, c) ∉ o.sys.db.listing
+  /-- the file being written when the failure happened is not in the store -/
+  inprog : ∀ p, o.inprog = some p → p ∉ o.sys.fs.map Prod.fst
+  /-- files of earlier uploads are untouched -/
+  files : ∀ x ∈ s.fs, x ∈ o.sys.fs
+  /-- anything new in the store belongs to the failed upload's own id -/
+  files_new : ∀ x ∈ o.sys.fs, x ∈ s.fs ∨ o.alloc = some x.1.up
+
+theorem failed_post (env : Env) (req : Req) (s : Sys) (w : WfSys s) (e : Err)
+    (h : (processUpload env req s).resp = .error e) : FailedPost s (processUpload env req s) := by
+  rcases processUpload_cases env req s with ⟨e', h'⟩ | ⟨t, t', _, _, _, _, h'⟩
+  · rw [h']
+    have hstep := run0_step env req s
+    have fresh : ∀ k, (run0 env req s).1.tx.map (·.id) = some k → k ∉ s.db.uploads := by
+      intro k hk
+      rcases hstep with ⟨h1, _, _⟩ | ⟨t, h1, h2, _, _, _⟩
+      · simp [h1] at hk
+      · simp [h1] at hk; subst hk; exact allocId_fresh h2
+    refine ⟨rfl, ?_, ?_, ?_, ?_⟩
+    · intro k hk
+      have hf := fresh k hk
+      have hnone : ∀ row ∈ s.db.records, row.up ≠ k := fun row hr hk' => hf (hk' ▸ w.recs row hr)
+      refine ⟨hf, ?_, ?_⟩
+      · simp only [DB.queryUpload, DB.results, abortOutcome]
+        rw [List.filter_eq_nil_iff]
+        intro x hx
+        simp at hx
+        obtain ⟨row, hrow, _, _, rfl⟩ := hx
+        simpa using hnone row hrow
+      · intro c hc
+        simp only [DB.listing, abortOutcome, List.mem_filter, List.mem_map] at hc
+        obtain ⟨⟨k', _, hk'⟩, hpos⟩ := hc
+        simp at hk'
+        obtain ⟨rfl, rfl⟩ := hk'
+        have : DB.count ⟨(run0 env req s).1.uploads, s.db.records⟩ k' = 0 := by
+          simp only [DB.count, List.length_eq_zero_iff, List.filter_eq_nil_iff]
+          intro row hrow
+          simpa using hnone row hrow
+        simp [this] at hpos
+    · intro p hp; exact run0_inprog env req s p hp
+    · intro x hx
+      rcases hstep with ⟨_, _, h3⟩ | ⟨t, h1, h2, _, h4, _⟩
+      · simp only [abortOutcome]; rw [h3]; exact hx
+      · refine h4.2 x hx ?_
+        intro hk
+        exact allocId_fresh h2 (hk ▸ w.files x hx)
+    · intro x hx
+      rcases hstep with ⟨_, _, h3⟩ | ⟨t, h1, _, _, h4, _⟩
+      · simp only [abortOutcome] at hx; rw [h3] at hx; exact Or.inl hx
+      · rcases h4.1 x hx with h | h
+        · exact Or.inl h
+        · exact Or.inr (by simp [abortOutcome, h1, h])
+  · rw [h'] at h; simp at h
+
+/-- the id handed out by a request, if any, and its persistent Uploads row -/
+theorem alloc_spec (env : Env) (req : Req) (s : Sys) :
+    ((processUpload env req s).alloc = none ∧ (processUpload env req s).sys.db.uploads = s.db.uploads) ∨
+    (∃ k, (processUpload env req s).alloc = some k ∧ allocId env.day s.db.uploads = some k ∧
+      (processUpload env req s).sys.db.uploads = s.db.uploads ++ [k]) := by
+  have hstep := run0_step env req s
+  rcases processUpload_cases env req s with ⟨e, h⟩ | ⟨t, t', _, _, htx, _, h⟩
+  · rw [h]
+    rcases hstep with ⟨h1, h2, _⟩ | ⟨t, h1, h2, h3, _, _⟩
+    · exact Or.inl ⟨by simp [abortOutcome, h1], by simp [abortOutcome, h2]⟩
+    · exact Or.inr ⟨t.id, by simp [abortOutcome, h1], h2, by simp [abortOutcome, h3]⟩
+  · rw [h]
+    rcases hstep with ⟨h1, _, _⟩ | ⟨t0, h1, h2, h3, _, _⟩
+    · rw [h1] at htx; cases htx
+    · rw [h1] at htx; cases htx
+      exact Or.inr ⟨t.id, rfl, h2, h3⟩
+
+/-- ids handed out along a history, in creation order (also those of uploads that failed later) -/
+def allocs : List (Env × Req) → Sys → List UKey
+  | [], _ => []
+  | (env, req) :: rest, s =>
+    (match (processUpload env req s).alloc with
+      | some k => [k]
+      | none => []) ++ allocs rest (processUpload env req s).sys
+
+theorem uploads_grow (hist : List (Env × Req)) (s : Sys) : ∀ k ∈ s.db.uploads, k ∈ (runHistory hist s).db.uploads := by
+  induction hist generalizing s with
+  | nil => intro k hk; exact hk
+  | cons a rest ih =>
+    intro k hk
+    refine ih _ k ?_
+    rcases alloc_spec a.1 a.2 s with ⟨_, h⟩ | ⟨k', _, _, h⟩
+    · rw [h]; exact hk
+    · rw [h]; exact List.mem_append_left _ hk
+
+theorem allocs_spec (hist : List (Env × Req)) (s : Sys) (w : WfSys s) :
+    (allocs hist s).Pairwise (fun a b => a ≠ b ∧ (a.day = b.day → a.seq < b.seq)) ∧
+    ∀ k ∈ allocs hist s, k ∉ s.db.uploads ∧ 1 ≤ k.seq ∧ (∀ k' ∈ s.db.uploads, k'.day = k.day → k'.seq < k.seq) ∧
+      k ∈ (runHistory hist s).db.uploads := by
+  induction hist generalizing s with
+  | nil => simp [allocs]
+  | cons a rest ih =>
+    obtain ⟨env, req⟩ := a
+    have w' := processUpload_wf env req s w
+    obtain ⟨ih1, ih2⟩ := ih _ w'
+    simp only [allocs, runHistory]
+    rcases alloc_spec env req s with ⟨h1, h2⟩ | ⟨k, h1, h2, h3⟩
+    · rw [h1]
+      simp only [List.nil_append]
+      refine ⟨ih1, ?_⟩
+      intro k hk
+      have := ih2 k hk
+      rw [h2] at this
+      exact this
+    · rw [h1]
+      simp only [List.singleton_append]
+      have hgt := allocId_gt w.contig h2
+      refine ⟨List.pairwise_cons.mpr ⟨?_, ih1⟩, ?_⟩
+      · intro b hb
+        have := ih2 b hb
+        rw [h3] at this
+        refine ⟨?_, fun hd => this.2.2.1 k (by simp) hd⟩
+        intro hkb; subst hkb; exact this.1 (by simp)
+      · intro b hb
+        rcases List.mem_cons.mp hb with rfl | hb
+        · refine ⟨allocId_fresh h2, hgt.1, hgt.2, ?_⟩
+          exact uploads_grow rest _ _ (by rw [h3]; simp)
+        · have := ih2 b hb
+          rw [h3] at this
+          exact ⟨fun h => this.1 (List.mem_append_left _ h), this.2.1,
+            fun k' hk' => this.2.2.1 k' (List.mem_append_left _ hk'), this.2.2.2⟩
+
 end C20
